@@ -121,11 +121,11 @@ theorem agree_bytes (t : Nat) (v : JV) (hv : VOK v) (hd : DepthOK env t v)
     congr 1
     omega
   | arr xs =>
-    have hel : ∀ x ∈ xs, Agree1 (deNumber env (.int .u8)) (FromValue.deInt cfg' .u8 x) (T ext x) ∧
+    have hel : ∀ x ∈ xs, Agree1w (deNumber env (.int .u8)) (FromValue.deInt cfg' .u8 x) (T ext x) ∧
         ∃ c tl, T ext x = c :: tl ∧ HeadOf x c := by
       intro x hx
       have hvx := vok_elem xs x hx hv
-      refine ⟨?_, T_head ext hext x hvx⟩
+      refine ⟨Agree1.weak ?_, T_head ext hext x hvx⟩
       have e : deInt env .u8 = deNumber env (.int .u8) := by funext r p; simp [deInt, is128, IntTy.bits]
       have := agree_int ext hext hflt cfg' hap ext' .u8 x hvx (hfl xs rfl x hx)
       rw [e] at this
